@@ -3,7 +3,7 @@ from __future__ import annotations
 
 from vf import absval as av
 from vf import sess as S
-from vf.common import Acc, CpuTimeout, Ctx, NOTICE_OID, cpu_limit, norm_msg
+from vf.common import call_with_headroom, Acc, CpuTimeout, Ctx, NOTICE_OID, cpu_limit, norm_msg
 from vf.gen import corrupt as C
 from vf.gen import values as gv
 from vf.ref import ber, rfc4511
@@ -31,7 +31,7 @@ def shards(tier):
 def gates(c, tier):
     out = []
     for k in ("outcome:messages", "outcome:wait", "outcome:ProtocolError", "part:random", "part:operator", "part:bytesub", "part:truncate", "part:valid-into-history", "part:large-bytewise",
-              "part:nest", "post-error-receive-refused", "post-error-send-refused", "response:notice-checked", "response:unbind-checked"):
+              "part:nest", "part:low-stack-headroom", "post-error-receive-refused", "post-error-send-refused", "response:notice-checked", "response:unbind-checked"):
         if c.get(k, 0) == 0:
             out.append(f"never observed: {k}")
     cells = [k for k in c if k.startswith("cell:")]
@@ -75,7 +75,7 @@ def _check_response(role, e):
 PROBE = rfc4511.encode(("ExtendedRequest", 77, ("1.2.3", None), ()))
 
 
-def run_case(role, history, data: bytes, cuts):
+def run_case(role, history, data: bytes, cuts, headroom=None):
     """Returns (violations, observations dict)."""
     obs = {}
     out = []
@@ -89,7 +89,8 @@ def run_case(role, history, data: bytes, cuts):
         arg = ch if kind == 0 else (buf if kind == 1 else memoryview(buf))
         try:
             with cpu_limit(10):
-                res = sess.receive(arg)
+                # headroom: the application calls receive from deep inside its own recursion
+                res = sess.receive(arg) if not headroom else call_with_headroom(headroom, lambda: sess.receive(arg))
             if buf is not None:
                 buf[:] = b"\xAA" * len(buf)
         except CpuTimeout:
@@ -173,10 +174,10 @@ def run_shard(ctx: Ctx, acc: Acc):
 def _run_shard(ctx: Ctx, acc: Acc):
     n = ctx.scale(24_000, 700_000)
 
-    def do(part, role, history, data, cuts, tag=None):
+    def do(part, role, history, data, cuts, tag=None, headroom=None):
         acc.case()
         acc.count("part:" + part)
-        vio, obs = run_case(role, history, data, cuts)
+        vio, obs = run_case(role, history, data, cuts, headroom)
         for k, v in obs.items():
             acc.count(k, v)
         if tag:
@@ -186,7 +187,7 @@ def _run_shard(ctx: Ctx, acc: Acc):
         elif len(data) > 4096:
             acc.nontrivial(role, history, len(data), data[:64], tuple(cuts))
         for key, what in vio:
-            acc.violation(key, what, {"role": role, "history": history, "data": data, "cuts": list(cuts), "part": part})
+            acc.violation(key, what + (f" [called with ~{headroom} frames of stack headroom]" if headroom else ""), {"role": role, "history": history, "data": data, "cuts": list(cuts), "part": part, "headroom": headroom})
             if key == "no-return-within-cpu-budget":
                 acc.count("no-return")
         if acc.counters.get("no-return", 0) >= 3:
@@ -282,6 +283,21 @@ def _run_shard(ctx: Ctx, acc: Acc):
         for cut in range(len(data)):
             full = data[:cut] + nxt
             do("truncate", role, r.choice(S.HISTORIES), full, C.g_chunking(r, len(full), [cut]))
+    # (f) moderately nested input received with little stack headroom left by the application
+    for j in range(24):
+        if j % ctx.nshards != ctx.shard:
+            continue
+        r = ctx.rng("f", j)
+        for _ in range(6):
+            d = r.choice([5, 20, 60, 100, 150, 250])
+            h = r.choice([60, 100, 200, 400])
+            if r.random() < 0.7:
+                data = C.nested_filter_search(d, r.choice(["not", "and", "or"]))
+                role = r.choice(["server", "server", "client"])
+            else:
+                data = C.nested_sequences(d, r.choice(["envelope", "controls", "trailing"]))
+                role = r.choice(ROLES)
+            do("low-stack-headroom", role, r.choice(["fresh", "opened-ops"]), data, [], headroom=h)
     # (e) nesting
     depths = [10, 100, 300, 480, 490, 495, 500, 600, 990, 1000, 1100, 3000, 20000]
     for di, d in enumerate(depths):
@@ -303,5 +319,5 @@ def replay(w):
         data = eval(w["data_gen"], {"nested_filter_search": C.nested_filter_search, "nested_sequences": C.nested_sequences})
     else:
         data = bytes(w["data"])
-    vio, obs = run_case(w["role"], w["history"], data, list(w["cuts"]))
+    vio, obs = run_case(w["role"], w["history"], data, list(w["cuts"]), w.get("headroom"))
     return vio
